@@ -5,6 +5,7 @@ sys.path.insert(0, os.path.dirname(os.path.abspath(__file__)))
 import core  # noqa: E402
 import genes  # noqa: E402  (kernel II: gene bookkeeping; contexts at specification level, coq/theories/Genes/Ctx.v)
 import ctxmon  # noqa: E402  (specification-level monitor over context-aware operations outside the kernels)
+import scenarios  # noqa: E402  (fixed small histories outside the reach of the generators)
 import groups  # noqa: E402  (kernel III: groups and identifier changes; contexts at specification level, Groups/Ctx.v)
 import extras  # noqa: E402  (kernel IV: user constraints / variables, solver switch, merge; coq/theories/Extras)
 
@@ -26,5 +27,5 @@ if __name__ == "__main__":
                           "groups kernel: likewise at specification level (Groups/Ctx.v); `restored` / `groups_restored` of "
                           "Groups/Check.v compare the observations at __enter__ and after __exit__",
                           "extras kernel: likewise at specification level (Extras/Ctx.v); `restored` of Extras/Check.v"],
-        extra=[genes.run_ctx, groups.run_ctx, extras.run_ctx, ctxmon.run],
+        extra=[genes.run_ctx, groups.run_ctx, extras.run_ctx, ctxmon.run, scenarios.run_c03],
         extra_targets=genes.EXTRA_TARGETS + groups.EXTRA_TARGETS + extras.EXTRA_TARGETS))
